@@ -275,7 +275,9 @@ pub const CFG: GenCfg = GenCfg {
 };
 
 pub fn subs() -> Vec<Box<dyn SubCheck>> {
-    vec![Box::new(PropCheck::<Scenario, _> {
+    vec![
+        Box::new(vcore::EnumCheck::<Scenario> { name: "consistency_single_fault_enum", total: gen::single_fault_total, case: gen::single_fault_case, oracle }),
+        Box::new(PropCheck::<Scenario, _> {
         name: "consistency_generated",
         cases: |t| t.pick(2_000, 120_000),
         strategy: |_t: Tier| gen::scenario(CFG),
